@@ -103,6 +103,9 @@ def main():
                         known_hits.append((i, d, cls))
                     else:
                         hits.append((i, d))
+            if hasattr(mod, "global_check"):          # verdicts over the whole batch (e.g. too many watchdog hits)
+                for i, d in mod.global_check(cases, outs):
+                    hits.append((i, d))
             if hasattr(mod, "extra"):
                 cov_extra = mod.extra(cases, outs, model) or {}
         except Exception as ex:
